@@ -89,8 +89,11 @@ func (ci *ChunkInfo) updateNeighborChunkInfo(rootCid, cid boson.Address, overlay
 	}
 	bv, ok := ci.ct.presence[rc][over]
 
-	v := ci.getCidSort(rootCid, cid)
-	bv.Set(v)
+	// only a data chunk of the file has a position in the vector; a manifest or intermediate
+	// chunk read under the file's context must not mark data chunk 0 as present
+	if v, ok := ci.getCidSortOK(rootCid, cid); ok {
+		bv.Set(v)
+	}
 	bit := BitVector{B: bv.Bytes(), Len: bv.Len()}
 	if overlay.Equal(ci.addr) {
 		go ci.PublishDownloadProgress(rootCid, BitVectorInfo{
